@@ -50,6 +50,7 @@ def run(F, rep, tier):
     c12.file_ids_unique(F, rep)
     prelude_yields(F, rep)
     emitter_has_no_errors_of_its_own(F, rep)
+    every_file_is_heard(F, rep)
 
 
 def nonempty_errors(F, rep, rule="EXIT"):
@@ -565,3 +566,34 @@ def emitter_has_no_errors_of_its_own(F, rep, rule="ATOMIC"):
            "%s returns an error of its own making (`%s`) after output has started: with `-o -` everything emitted so far has already "
            "reached stdout when the run fails, while `-o FILE` leaves FILE untouched - the two outputs differ and a failed run is not "
            "all-or-nothing" % (last(bad[0][0]["_path"], 2), pp(bad[0][1])[:70]), line_of(bad[0][1]) if bad else None)
+
+
+def every_file_is_heard(F, rep, rule="EXIT"):
+    """"prints every error": the loader visits the files of a program one after the other and collects what is wrong with each - a file
+    that cannot be read, conflict markers, syntax errors - in one list that is returned when all files were visited.  No turn of that
+    loop leaves the function: an early `return Err(..)` (or `?`) for one file silences the errors already collected from the files
+    before it and the ones still waiting."""
+    fn = F.fn("sylt_parser::tree")
+    rep.analysed(fn)
+    loops = [lp for lp in nodes(fn_body(fn)) if lp.get("k") in ("While", "Loop", "ForLoop")
+             and any(callee(c) == "sylt_parser::module" for c in nodes(lp, "Call"))]
+    if not loops:
+        rep.anchor_missing("the loop of sylt_parser::tree that parses one module per turn")
+        return
+    lp = loops[0]
+    exits = [x for x in nodes(lp) if x.get("k") in ("Ret", "Try") and not _inside_closure(lp, x)]
+    collects = [c for c in nodes(lp, "MethodCall") if c["m"] in ("push", "append", "extend") and "errors" in pp(c["recv"])]
+    rep.ob(rule, "tree|no-file-ends-the-visit", not exits and len(collects) >= 2,
+           "every failure of one file is added to the list and the visit goes on (%d collecting calls, no exit in the loop)" % len(collects)
+           if not exits and len(collects) >= 2 else
+           "a turn of the file-visiting loop of sylt_parser::tree can leave the function (`%s`): the errors collected from the files "
+           "visited before - and those of the files still waiting - are never printed; the user sees one missing module and fixes the "
+           "syntax errors one compile later" % (pp(exits[0])[:50] if exits else "fewer collecting calls than failure kinds"),
+           line_of(exits[0]) if exits else line_of(lp))
+
+
+def _inside_closure(root, x):
+    for n, parents in walk(root):
+        if n is x:
+            return any(p.get("k") == "Closure" for p in parents)
+    return False
